@@ -51,11 +51,10 @@ theorem report_matches_table : reportProblems freshReport = [] := by
   simp only [reportProblems, report_table_matches, report_generic_matches, report_lists_match,
     report_sentences_read, report_bounds_match, report_literals_match, List.append_nil]
 
-/-- Full statement wanted: `reportDrift committedReport freshReport = []` (the committed SUPPORTED_OPS.md
-    is the report of this tree).  It is false of the unchanged tree (`committed_report_witness`); what
-    holds is that every difference is one of the four recorded ones. -/
-theorem committed_report_matches_partial :
-    (reportDrift committedReport freshReport).all (fun x => knownDrift.contains x) = true := by decide +kernel
+/-- The committed SUPPORTED_OPS.md is the report this tree generates (same table rows, generic bullets with their
+    exclusions, and per-operator sections).  (Was `committed_report_matches_partial` while the committed file lacked
+    GELU/LOG/SQRT and still listed a PAD sentence the code had dropped.) -/
+theorem committed_report_matches : reportDrift committedReport freshReport = [] := by decide +kernel
 
 /-! ## The model of the two checkers returns "NPU" iff every listed constraint holds -/
 
@@ -118,9 +117,5 @@ example : isOperatorSupported badMaxPoolStride4 = .cpu n!"constraint_stride_rang
 example : isOperatorSemanticValid badAddNoQuant = .cpu n!"constraint_tens_quant_none_check" := by decide +kernel
 example : isOperatorSupported badConvBias41 = .cpu n!"constraint_bias_40bit" := by decide +kernel
 
-/-- the committed document differs from the fresh report on the unchanged tree (witness of the
-    negation of the full statement above `committed_report_matches_partial`): kept as an `example`
-    so that repairing SUPPORTED_OPS.md breaks nothing but this line's documentation value -/
-example : knownDrift.length = 4 := by decide
 
 end VelaVerif.Props.C16
